@@ -21,7 +21,7 @@ RULE = ('value shape x reference scope x call sequence (each call: caller overri
         'shape holds a reference and the sequence has a mutation or an override.')
 ASSUMPTIONS = ['referenced configurable g returns a fresh list tagged with a global call counter',
                'the consumer returns what it received; the harness mutates it afterwards (same effect as in-body)']
-WITNESSES = ['fresh_per_call', 'not_called_when_positional', 'not_called_when_keyword', 'scoped_ref_exact_scope',
+WITNESSES = ['rebound_scope_exact', 'fresh_per_call', 'not_called_when_positional', 'not_called_when_keyword', 'scoped_ref_exact_scope',
              'unscoped_ref_ambient_scope', 'unevaluated_delivers_registry_version', 'mutation_invisible_later',
              'nested_depth3', 'two_refs_two_calls', 'references_as_dict_keys']
 
@@ -80,6 +80,8 @@ SHAPES = {
     'lit_only': [1, [2], {'z': 3}],
     'deep3': ([{'k': (G, [F])}], 'lit'),
     'two_scopes': [M(True, 's'), G, M(True, 'x/y')],
+    'tuple_of_mutables': ([1, [2]], {'z': [3]}),
+    'tuple_mutables_ref': ([1, 2], {'k': 'v'}, (G,)),
 }
 REF_SCOPES = [None, 's', 's/t']
 AMBIENT = [[], ['a'], ['a', 'b']]
@@ -300,6 +302,8 @@ DICTKEY_CASES = {
     'nested_key_dicts': ("[{@s/c04.gk(): 1}, {@t/c04.gk(): 1}]",
                          lambda amb: [{('gk', 's', 'KT'): 1}, {('gk', 't', 'KT'): 1}], 2),
     'tuple_key': ("{(@s/c04.gk(), @t/c04.gk()): 1}", lambda amb: {(('gk', 's', 'KT'), ('gk', 't', 'KT')): 1}, 2),
+    'key_in_tuple': ("({@s/c04.gk(): 1},)", lambda amb: ({('gk', 's', 'KT'): 1},), 1),
+    'key_in_tuple_in_list': ("[({@c04.gk(): [1]}, 2)]", lambda amb: [({('gk', amb, 'KT'): [1]}, 2)], 1),
 }
 
 
@@ -332,6 +336,53 @@ def run_dictkey(name, ai, res):
       return
   res.w('references_as_dict_keys')
   res.outcome('dictkey')
+
+
+REBIND_SHAPES = ['bare_eval', 'bare_uneval', 'list', 'deep', 'mixed']
+REBIND_SCOPES = [None, 's', 't', 's/t']
+REBIND_HOW = ['second_parse', 'same_text', 'bind_parameter', 'second_parse_after_call']
+
+
+def run_rebind(sname, pair, how, res):
+  """The parameter is bound to a value whose references carry scope A and then re-bound to the same value written
+  with scope B: the delivered references run under exactly B."""
+  desc = ['rebind', sname, list(pair), how]
+  a, b = pair
+  t = SHAPES[sname]
+  harness.hard_reset()
+  del CALLS[:]
+  res.case(('rebind', sname, pair, how), True)
+  first = "c04.g.tag = 'T'\nc04.consumer.p = %s\n" % render(t, a)
+  second = 'c04.consumer.p = %s\n' % render(t, b)
+  try:
+    if how == 'same_text':
+      gin.parse_config(first + second)
+    elif how == 'bind_parameter':
+      gin.parse_config(first + 'c04.consumer.q = %s\n' % render(t, b))
+      gin.bind_parameter('c04.consumer.p', gin.query_parameter('c04.consumer.q'))
+    else:
+      gin.parse_config(first)
+      if how == 'second_parse_after_call':
+        CONSUMER()
+      gin.parse_config(second)
+    base = len(CALLS)
+    got = CONSUMER()
+  except Exception as e:  # pylint: disable=broad-except
+    res.violation('call_raised', '%r: %r' % (desc, e), desc)
+    return
+  problems = []
+  compare(t, got, b, [], base, set(), problems)
+  shown = gin.config_str()
+  want_text = render(t, b)
+  if problems:
+    res.violation('reference_scope' if any('ran under' in p for p in problems) else 'delivered_value',
+                  '%r: after re-binding %s -> %s: %s' % (desc, render(t, a), want_text, '; '.join(problems[:3])), desc)
+  elif want_text.replace(' ', '') not in shown.replace(' ', '').replace('\n', '').replace('\\', ''):
+    res.violation('config_str_lost_reference', '%r: config_str does not show the re-bound value %s:\n%s' %
+                  (desc, want_text, shown), desc)
+  else:
+    res.w('rebound_scope_exact')
+  res.outcome('rebind')
 
 
 def run_override_variants(cname, res):
@@ -371,6 +422,10 @@ def gen(tier):
   for name in DICTKEY_CASES:
     for ai in range(len(AMBIENT)):
       yield 'DICTKEY', name, ai
+  for sname in REBIND_SHAPES:
+    for pair in itertools.permutations(REBIND_SCOPES, 2):
+      for how in REBIND_HOW:
+        yield 'REBIND', (sname, pair), how
   n = 3
   call_menu = list(itertools.product(OVERRIDES, range(len(AMBIENT)), MUTATIONS))
   for sname in SHAPES:
@@ -399,6 +454,9 @@ def run_shard(i, tier):
     if sname == 'OVERRIDE':
       run_override_variants(rscope, res)
       continue
+    if sname == 'REBIND':
+      run_rebind(rscope[0], rscope[1], seq, res)
+      continue
     run_sequence(sname, rscope, seq, res)
     if n % 4001 == i:
       res.sample({'shape': render(SHAPES[sname], rscope), 'calls': [list(c) for c in seq]})
@@ -412,6 +470,10 @@ def replay(desc):
   res = core.Result()
   if desc[0] == 'override':
     run_override_variants(desc[1], res)
+    harness.hard_reset()
+    return res
+  if desc[0] == 'rebind':
+    run_rebind(desc[1], tuple(desc[2]), desc[3], res)
     harness.hard_reset()
     return res
   if desc[0] == 'dictkey':
